@@ -28,6 +28,11 @@ type Case struct {
 	// Plan, if set, replaces the positional masks by content-targeted faults (used by the
 	// minimiser: removing one targeted fault does not shift the others).
 	Plan []Target `json:"plan,omitempty"`
+	// Retransmission timing of each side (milliseconds; 0 = the default 1 s) and backoff switch:
+	// the peers need not share a schedule.
+	IvlC int  `json:"ivlc,omitempty"`
+	IvlS int  `json:"ivls,omitempty"`
+	NoBO bool `json:"nobo,omitempty"`
 }
 
 // Target is a content-targeted fault: the Occ-th datagram of class Class sent by From.
@@ -171,9 +176,9 @@ const (
 
 // bound is the virtual time within which the retransmission schedule recovers F faults:
 // sum_{k=0}^{F+1} min(I*2^k, 60s). Deliberately loose (see DESIGN C02).
-func bound(f int) time.Duration {
+func bound(f int, base time.Duration) time.Duration {
 	sum := time.Duration(f) * 2500 * time.Millisecond // a held datagram is delayed by at most MaxHold
-	iv := interval
+	iv := base
 	for k := 0; k <= f+1; k++ {
 		sum += iv
 		iv *= 2
@@ -282,6 +287,20 @@ type outcome struct {
 // attempt runs one case inside the current bubble.
 func attempt(c Case) outcome {
 	cEP, sEP, resumed := variantEPs(c.Variant)
+	cEP.IntervalMs, sEP.IntervalMs = c.IvlC, c.IvlS
+	cEP.NoBackoff, sEP.NoBackoff = c.NoBO, c.NoBO
+	base := interval
+	for _, ms := range []int{c.IvlC, c.IvlS} {
+		if d := time.Duration(ms) * time.Millisecond; ms > 0 && d > base {
+			base = d
+		}
+	}
+	// Without backoff the schedule is constant: F faults are recovered within (F+2) intervals, so a
+	// shorter virtual deadline decides liveness just as well and keeps stalled cases cheap.
+	hsTimeout := hsTimeout
+	if c.NoBO {
+		hsTimeout = 5 * time.Minute
+	}
 	env := scen.NewEnv()
 	env.Log = &scen.LogSink{Keep: os.Getenv("VERIF_DEBUG") != ""}
 	if resumed {
@@ -336,7 +355,7 @@ func attempt(c Case) outcome {
 			msg: fmt.Sprintf("handshake did not complete within %v virtual (%d effective faults): C=%v S=%v\n%s", hsTimeout, eff, p.C.Err(), p.S.Err(), tail(p.Dump(), 40))}
 	}
 	done := max(p.C.HSAt, p.S.HSAt)
-	if b := bound(eff); done > b {
+	if b := bound(eff, base); done > b {
 		return outcome{status: "slow", who: "both", sig: faultSig(plan), eff: eff, plan: plan,
 			msg: fmt.Sprintf("completed at %v, bound for %d faults is %v\n%s", done, eff, b, tail(p.Dump(), 40))}
 	}
@@ -372,13 +391,13 @@ func minimise(c Case, o outcome) (Case, outcome) {
 	if len(o.plan) == 0 {
 		return c, o
 	}
-	cur := Case{Variant: c.Variant, Plan: o.plan}
+	cur := Case{Variant: c.Variant, Plan: o.plan, IvlC: c.IvlC, IvlS: c.IvlS, NoBO: c.NoBO}
 	curO := attempt(cur)
 	if curO.status != o.status || curO.who != o.who {
 		return c, o // the targeted plan does not reproduce (schedule shifted): keep the original
 	}
 	for i := 0; i < len(cur.Plan) && len(cur.Plan) > 1; {
-		cand := Case{Variant: cur.Variant, Plan: append(append([]Target(nil), cur.Plan[:i]...), cur.Plan[i+1:]...)}
+		cand := Case{Variant: cur.Variant, Plan: append(append([]Target(nil), cur.Plan[:i]...), cur.Plan[i+1:]...), IvlC: c.IvlC, IvlS: c.IvlS, NoBO: c.NoBO}
 		no := attempt(cand)
 		if no.status == curO.status && no.who == curO.who {
 			cur, curO = cand, no
@@ -544,8 +563,44 @@ func genSampled(t *rapid.T) Case {
 		return out
 	}
 	c.FC, c.FS = gen("fc"), gen("fs")
+	if rapid.IntRange(0, 2).Draw(t, "timing") == 0 {
+		ivs := []int{0, 50, 150, 400, 1000, 3000}
+		c.IvlC, c.IvlS = rapid.SampledFrom(ivs).Draw(t, "ivlc"), rapid.SampledFrom(ivs).Draw(t, "ivls")
+		c.NoBO = rapid.Bool().Draw(t, "nobo")
+	}
 
 	return c
+}
+
+// enumTiming: every single lost datagram (first 8 of each direction) under asymmetric
+// retransmission schedules of the two peers, with and without backoff.
+func enumTiming(tier string, yield func(Case) bool) {
+	pairs := [][2]int{{50, 150}, {150, 50}, {100, 1000}, {1000, 100}, {333, 1000}}
+	n := 6
+	if tier == "thorough" {
+		n = 10
+	}
+	for _, v := range variants {
+		for _, pr := range pairs {
+			for _, nobo := range []bool{false, true} {
+				for side := 0; side < 2; side++ {
+					for i := 0; i < n; i++ {
+						m := make([]vnet.Fault, i+1)
+						m[i].Kind = vnet.Drop
+						c := Case{Variant: v, IvlC: pr[0], IvlS: pr[1], NoBO: nobo}
+						if side == 0 {
+							c.FC = m
+						} else {
+							c.FS = m
+						}
+						if !yield(c) {
+							return
+						}
+					}
+				}
+			}
+		}
+	}
 }
 
 func init() {
@@ -556,6 +611,8 @@ func init() {
 		Rule: "EXHAUSTIVE drop-only masks, N=4 per direction (thorough N=6): " + rule})
 	pbt.Register(pbt.Prop[Case]{Name: "all-kind-masks", Enum: enumAllKinds, Exhaustive: true, Run: run, Crashy: true,
 		Rule: "EXHAUSTIVE masks over {pass,drop,dup,swap,hold+2}, N=2 per direction (thorough N=3): " + rule})
+	pbt.Register(pbt.Prop[Case]{Name: "timing-asymmetry", Enum: enumTiming, Exhaustive: true, Run: run, Crashy: true,
+		Rule: "EXHAUSTIVE single lost datagram (first 6, thorough 10, of each direction) x 5 asymmetric (client, server) flight intervals x backoff on/off: " + rule})
 	pbt.Register(pbt.Prop[Case]{Name: "sampled-masks", Quick: 2000, Thorough: 40000, Gen: genSampled, Run: run, Crashy: true,
 		Rule: "SAMPLED masks, N<=12 per direction, all five kinds, plus dual-stack variants: " + rule})
 }
